@@ -66,6 +66,9 @@ func zzB06Elems(flavour, n, pos, poison int, hashable bool) []Value {
 			switch {
 			case flavour == 1:
 				elems[i] = MakeInt(7) // not a string
+			case flavour == 2 && poison == 2:
+				// a mutable sequence of the wrong length: must itself be unlocked afterwards
+				elems[i] = NewList([]Value{MakeInt(301), MakeInt(302), MakeInt(303)})
 			case flavour == 2 && poison == 0:
 				elems[i] = MakeInt(300) // not iterable
 			case flavour == 2:
@@ -92,7 +95,11 @@ func zzH06_builtins() {
 	pos := zzChoice("pos", n+1)
 	poison := 0
 	if pos < n && (op.flavour == 2 || kind == 0) && op.flavour != 1 {
-		poison = zzChoice("poison", 2)
+		if op.flavour == 2 && kind == 0 {
+			poison = zzChoice("poison", 3)
+		} else {
+			poison = zzChoice("poison", 2)
+		}
 	}
 	elems := zzB06Elems(op.flavour, n, pos, poison, kind != 0)
 	k := &zzC06K{kind: kind, n: n}
@@ -243,6 +250,12 @@ func zzH06_builtins() {
 	zzAssert(*k.counter() == c0, "C06.builtin.unlocked")
 	zzAssert(*flag == frozen, "C06.builtin.flag_unchanged")
 	zzAssert(thread.CallStackDepth() == 0, "C06.builtin.stack_restored")
+	// every mutable element of K that the built-in iterated over is unlocked again
+	for _, e := range elems {
+		if el, ok := e.(*List); ok {
+			zzAssert(el.itercount == 0, "C06.builtin.element_unlocked")
+		}
+	}
 	selfMut := op.name == "self.extend" || op.name == "self.update"
 	if !selfMut {
 		// a built-in that only reads K leaves it bit-for-bit unchanged
